@@ -94,7 +94,7 @@ def gen_round(rng, tier, big=False):
     steady = [f for f in own.get('S', [])]
     sbyname = rng.below(3) == 0
     for f in steady:
-        kind = rng.choice(['ret', 'cb', 'cbo', 'cbo', 'tab', 'tab', 'tin'])
+        kind = rng.choice(['ret', 'cb', 'cbo', 'cbo', 'tab', 'tab', 'tin', 'tov'])
         segs.append(f'S {"mockn" if sbyname else "mock"} {f} {kind} {1 + rng.below(90)} {1 if kind == "cbo" else 0}')
     nvar = 0
     if nc >= 2 and rng.below(5) < 3:   # variadic steady targets with When tables keyed on the variadic elements
@@ -227,7 +227,8 @@ def expect(line):
         if m is None:
             return a * 7 + f
         kind, v = m
-        return {'ret': v, 'cb': a + v, 'cbo': a * 7 + f + v, 'tab': v + a if a in (1, 2) else v, 'tin': v + 5 if a in (1, 2) else v}[kind]
+        return {'ret': v, 'cb': a + v, 'cbo': a * 7 + f + v, 'tab': v + a if a in (1, 2) else v, 'tin': v + 5 if a in (1, 2) else v,
+                'tov': v + 1 if a == 1 else v + 2}[kind]   # tov: When(1) registered before When(Any()): first match wins
 
     steady = {}
     for op in prog.get('S', []):
